@@ -350,3 +350,8 @@ def t_bad_axes(sess):
             ok = ok and (got == valid)
     sess.prove("constructors accept exactly the six ordered axis pairs (exhaustive over {X,Y,Z,Q}^2 for three constructors)", [], z3.BoolVal(ok))
     sess.satisfiable("bad axes: reach", [])
+
+
+def default_cex(name):
+    """Generic public-API replay for verdicts that carry no more specific counterexample."""
+    return {"replay": "vf.props.replays:c18_flows", "case": {}, "cls": {"kind": "flow / strain increment inconsistent beyond the recorded defects"}}
